@@ -716,6 +716,26 @@ def _angles(ctx, only=None):
                    _circ(ib[0], mb[k][0]) * abs(math.sin(math.radians(colat))) <= 3.6e-7) and not any(v != v for v in ib + mb[k])
             if not okb and not (all(v != v for v in ib) and all(v != v for v in mb[k])):
                 ctx.disagree('x2a', c, ib, mb[k])
+        # the answer for one point must not depend on how many points are passed in one call (1..5 rows, 1-D single point)
+        for nb in (1, 2, 3, 4, 5):
+            for start in range(0, min(len(p), 40), nb):
+                sub = a[start:start + nb]
+                if len(sub) != nb:
+                    continue
+                try:
+                    xs = angles_to_x(sub, latitude=lat)
+                    bs = x_to_angles(x[start:start + nb], latitude=lat)
+                except Exception as e:
+                    ctx.violate('angles:batch-exception:n=%d' % nb, 'batch of %d points raises %r' % (nb, e),
+                                {'stream': 'angles', 'lat': lat, 'p': [list(q) for q in sub.tolist()]})
+                    continue
+                ctx.count('angles:batch-size-%d' % nb)
+                same = (np.array_equal(np.asarray(xs), x[start:start + nb], equal_nan=True) and
+                        np.array_equal(np.asarray(bs), back[start:start + nb], equal_nan=True))
+                if not same:
+                    ctx.violate('angles:batch-size-dependence:n=%d' % nb,
+                                'angles_to_x / x_to_angles on a batch of %d points differs from the same points in a larger batch' % nb,
+                                {'stream': 'angles', 'lat': lat, 'p': [list(q) for q in sub.tolist()]})
         jobs.append((lat, p, x.tolist(), back.tolist()))
     for (lat, p, x, back) in jobs:
         chunks = [(lat, p[i:i + 500], x[i:i + 500], back[i:i + 500]) for i in range(0, len(p), 500)]
